@@ -341,25 +341,35 @@ def _x2_table(F, R, binc, FILTERS):
     # (a) truth-table rows
     fn = 'rsbdd::print_truth_table_recursive'
     t = binc.ithir.get(fn)
-    arm, var, arms = leaf_arm_predicate(t, fn, R, 'row') if t else (None, None, None)
-    if arm is None:
-        R.violation('%s / X2 / anchor' % fn, 'UNDECIDABLE', 'cannot find the guarded leaf arm of the truth-table printer')
+    arms = None
+    if t:
+        for m in walk(t['body']):
+            if m['k'] != 'Match' or not m['arms']: continue
+            p0 = unwrap_pat(m['arms'][0]['pat'])
+            if p0['k'] == 'Variant' and canon(p0['adt']) == BDD and p0['variant'] == 'Choice': arms = m['arms']; break
+    if arms is None or len(arms) < 2:
+        R.violation('%s / X2 / anchor' % fn, 'UNDECIDABLE', 'cannot find the leaf arms of the truth-table printer')
     else:
+        # the arms after the Choice arm, tried in order on a leaf: the first whose pattern and guard accept it decides whether the row is printed
         fvar = [p['pat']['var'] for p in t['params'] if 'pat' in p and p['pat'].get('name') == 'filter']
-        prints = any(x['k'] == 'Call' and callee_name(x) == 'rsbdd::print_sized_line' for x in walk(arm['body']))
-        later_print = any(x['k'] == 'Call' and callee_name(x) == 'rsbdd::print_sized_line' for a in arms if a is not arm and unwrap_pat(a['pat'])['k'] != 'Variant' for x in walk(a['body']))
+        prints = lambda a_: any(x['k'] == 'Call' and callee_name(x) == 'rsbdd::print_sized_line' for x in walk(a_['body']))
         for f in FILTERS:
             for leaf in ('True', 'False'):
-                env = {var: ('bdd', leaf)}
-                if fvar: env[fvar[0]] = ('tte', f)
+                got = False; where = arms[1]
                 try:
-                    got = eval_pred(arm['guard'], env) and prints or later_print
+                    for a_ in arms[1:]:
+                        env = {}
+                        if fvar: env[fvar[0]] = ('tte', f)
+                        if not pat_matches(a_['pat'], ('bdd', leaf), env): continue
+                        if a_.get('guard') is not None and not eval_pred(a_['guard'], env): continue
+                        got = prints(a_); where = a_
+                        break
                 except PredUndec as u:
-                    R.violation('%s / X2 / UNDECIDABLE' % fn, 'UNDECIDABLE', 'row filter predicate: %s' % u, arm['guard'].get('loc')); break
+                    R.violation('%s / X2 / UNDECIDABLE' % fn, 'UNDECIDABLE', 'row filter predicate: %s' % u, (a_.get('guard') or a_['body']).get('loc')); break
                 want = (f == 'Any') or (f == leaf)
                 R.count('X2:row-filter-cases'); R.obligation(got == want, 'X2 row %s %s' % (f, leaf))
                 if got != want:
-                    R.violation('%s / X2 / filter=%s leaf=%s' % (fn, f, leaf), 'X2', 'with filter %s a row ending in %s is %s; it must be %s' % (f, leaf, 'printed' if got else 'omitted', 'printed' if want else 'omitted'), arm['guard'].get('loc'))
+                    R.violation('%s / X2 / filter=%s leaf=%s' % (fn, f, leaf), 'X2', 'with filter %s a row ending in %s is %s; it must be %s' % (f, leaf, 'printed' if got else 'omitted', 'printed' if want else 'omitted'), (where.get('guard') or where['body']).get('loc'))
     # (b) -v prints only at True
     fn = 'rsbdd::print_true_vars_recursive'
     t = binc.ithir.get(fn)
@@ -372,8 +382,100 @@ def _x2_table(F, R, binc, FILTERS):
                     if any(x['k'] == 'Call' and callee_name(x) == 'std::io::_print' for x in walk(a['body'])):
                         printing.append(p.get('variant') if p['k'] == 'Variant' else pp_pat(a['pat']))
         ok = printing == ['True']
+        # ... once per satisfying row, whatever the row holds: the line is written unconditionally in the True arm (a row in which
+        # every variable is False is the line `;`), and each variable is named iff its entry is True, or Any with a `*`
+        true_arm = None
+        for m in walk(t['body']):
+            if m['k'] == 'Match' and m['arms'] and unwrap_pat(m['arms'][0]['pat'])['k'] == 'Variant' and unwrap_pat(m['arms'][0]['pat']).get('variant') == 'Choice':
+                for a in m['arms']:
+                    p = unwrap_pat(a['pat'])
+                    if p['k'] == 'Variant' and p.get('variant') == 'True': true_arm = a
+        if ok and true_arm is not None:
+            def conditional(e, under):
+                hit = []
+                def rec(x, under):
+                    if not isinstance(x, dict): return
+                    if x.get('k') == 'Call' and callee_name(x) == 'std::io::_print' and under: hit.append(x)
+                    u2 = under or (x.get('k') in ('If', 'Loop') or (x.get('k') == 'Match' and 'TryDesugar' not in str(x.get('source'))))
+                    from facts import children
+                    for ch in children(x): rec(ch, u2)
+                rec(e, under)
+                return hit
+            cond_prints = conditional(true_arm['body'], False)
+            R.count('X2:vars-line-unconditional'); R.obligation(not cond_prints, 'X2 -v unconditional')
+            if cond_prints:
+                R.violation('%s / X2 / line per satisfying row' % fn, 'X2', '-v must write one line for every satisfying row; the line is written under a condition (a row that names no variable would be dropped)', cond_prints[0].get('loc'))
+            try:
+                shown = _vars_line_entries(binc, true_arm['body'])
+                want = {'True': ['name'], 'Any': ['name*'], 'False': []}
+                okc = shown == want
+                why = 'an entry True must show the name, Any the name followed by `*`, False nothing; found %s' % shown
+            except PredUndec as u:
+                okc = False; why = 'cannot read how the line of a satisfying row is built: %s' % u
+            R.count('X2:vars-line-entries', 3); R.obligation(okc, 'X2 -v entries')
+            if not okc: R.violation('%s / X2 / names on the line' % fn, 'X2' if 'cannot read' not in why else 'UNDECIDABLE', why, true_arm['body'].get('loc'))
         R.count('X2:vars-printer-arms'); R.obligation(ok, 'X2 -v')
         if not ok: R.violation('%s / X2 / printing arms' % fn, 'X2', '-v must print exactly at the True leaf; printing arms: %s' % printing)
+
+def _vars_line_entries(binc, arm_body):
+    """what the -v line shows for one table entry, per entry value: {'True': [..], 'Any': [..], 'False': [..]} with items 'name' / 'name*'.
+    Reads the one place that walks the entries: a `for` loop pushing into the list that is joined, or a `filter_map` closure."""
+    def item_kind(e):
+        star = any(x['k'] == 'Literal' and ((x.get('lit') == 'Str' and '*' in x['value']) or (x.get('lit') == 'ByteStr' and b'*' in bytes(x['value']))) for x in walk(e))
+        other = [x['value'] for x in walk(e) if x['k'] == 'Literal' and x.get('lit') == 'Str' and x['value'] not in ('*', '')]
+        if other: raise PredUndec('the shown name is decorated with %r' % other[0])
+        return 'name*' if star else 'name'
+    def run(e, env, out):
+        while e['k'] in ('Use', 'NeverToAny'): e = e['source']
+        k = e['k']
+        if k == 'Block':
+            for st in e['stmts']:
+                if st['k'] == 'Expr': run(st['expr'], env, out)
+                elif st['k'] == 'Let' and st.get('init') is not None and any(x['k'] == 'Call' and callee_name(x) == 'std::vec::Vec::push' for x in walk(st['init'])): raise PredUndec('push inside a let')
+            if e.get('expr') is not None: run(e['expr'], env, out)
+            return
+        if k == 'If':
+            if e['cond']['k'] == 'Let': raise PredUndec('if-let in the entry walk')
+            if eval_pred(e['cond'], env): run(e['then'], env, out)
+            elif e.get('else') is not None: run(e['else'], env, out)
+            return
+        if k == 'Match' and e.get('source') in (None, 'Normal'):
+            v = eval_val(e['scrutinee'], env)
+            for a in e['arms']:
+                env2 = dict(env)
+                if pat_matches(a['pat'], v, env2) and (a.get('guard') is None or eval_pred(a['guard'], env2)):
+                    run(a['body'], env2, out); return
+            raise PredUndec('no arm applies')
+        if k == 'Call' and callee_name(e) == 'std::vec::Vec::push':
+            out.append(item_kind(e['args'][1])); return
+        if k == 'Adt' and canon(e['adt']) == 'std::option::Option':
+            if e['variant'] == 'Some': out.append(item_kind(e['fields'][0]['expr']))
+            return
+        if k in ('Tuple',) and not e['fields']: return
+        if k == 'Match' and 'TryDesugar' in str(e.get('source')): raise PredUndec('`?` inside the entry walk')
+        if any(x['k'] == 'Call' and callee_name(x) == 'std::vec::Vec::push' for x in walk(e)): raise PredUndec('push under %s' % k)
+    # the walk over the entries
+    cands = []
+    for x in walk(arm_body):
+        if x['k'] == 'Match' and x.get('source') == 'ForLoopDesugar':
+            for m_ in walk(x['arms'][0]['body']):
+                if m_['k'] == 'Match' and m_.get('source') == 'ForLoopDesugar':
+                    for a_ in m_['arms']:
+                        p_ = unwrap_pat(a_['pat'])
+                        if p_['k'] == 'Variant' and p_['variant'] == 'Some' and p_['subs']: cands.append((walk_pat_bindings(p_['subs'][0]['pat']), a_['body']))
+                    break
+        if x['k'] == 'Call' and callee_decl(x) == 'std::iter::Iterator::filter_map' and len(x['args']) == 2:
+            cl = [y for y in walk(x['args'][1]) if y['k'] == 'Closure']
+            ct = binc.ithir.get(canon(cl[0]['def'])) if cl else None
+            if ct is not None and len(ct['params']) == 2: cands.append((walk_pat_bindings(ct['params'][1]['pat']), ct['body']))
+    if len(cands) != 1: raise PredUndec('expected one walk over the entries of the row, found %d' % len(cands))
+    binds, body = cands[0]
+    res = {}
+    for v in ('True', 'Any', 'False'):
+        out = []
+        run(body, {b_: ('tte', v) for b_ in binds}, out)
+        res[v] = out
+    return res
 
 def _x2_dot(F, R, lib, FILTERS):
     # (c) dot: declared leaf <=> same predicate; edge into a leaf emitted <=> that leaf declared
@@ -633,6 +735,9 @@ def rule_X3(F, R):
             e = strip(e)
             if e['k'] in ('VarRef', 'UpvarRef'): return idom.get(e['var'])
             if e['k'] == 'Call' and callee_name(e) == PF + 'to_free_index': return 0
+            if e['k'] == 'Call' and (callee_name(e) or '') in ('core::slice::<impl [T]>::len', 'std::vec::Vec::len'):
+                d = seq_dom(e['args'][0])               # `widths[labels.len()]`: the length of a sequence, used as an index directly
+                return d + 1 if d is not None else None
             return None
         n = 0
         for e in walk(t['body']):
@@ -1016,11 +1121,26 @@ def rule_X4(F, R, clauses=('parse', 'order', 'model', 'retain', 'export', 'vars'
         ok = False
         if t:
             # free_vars.push(v.clone()) under `if var_is_free(&result, &result.bdd, v)`, v iterating result.vars
+            blets = {}
+            for b_ in walk(t['body']):
+                if b_['k'] == 'Block':
+                    for st in b_['stmts']:
+                        if st['k'] == 'Let' and st.get('init') is not None and unwrap_pat(st['pat'])['k'] == 'Binding' and not unwrap_pat(st['pat']).get('mutable'): blets[unwrap_pat(st['pat'])['var']] = st['init']
             for e in walk(t['body']):
+                c0 = strip(e['cond']) if e['k'] == 'If' and e['cond']['k'] != 'Let' else None
+                while c0 is not None and c0['k'] == 'Unary' and c0['op'] == 'Not': c0 = strip(c0['arg'])
+                if c0 is not None and c0['k'] in ('VarRef', 'UpvarRef') and c0['var'] in blets and calls_in(blets[c0['var']], PF + 'var_is_free'):
+                    e = dict(e); cnd_ = strip(e['cond']); negs = 0
+                    while cnd_['k'] == 'Unary' and cnd_['op'] == 'Not': cnd_ = strip(cnd_['arg']); negs += 1
+                    inner_ = blets[c0['var']]
+                    for _ in range(negs): inner_ = {'k': 'Unary', 'op': 'Not', 'arg': inner_, 'loc': inner_.get('loc'), 'ty': inner_.get('ty')}
+                    e['cond'] = inner_
                 if e['k'] == 'If' and calls_in(e['cond'], PF + 'var_is_free'):
                     c = strip(e['cond'])
                     neg = False
                     while c['k'] == 'Unary' and c['op'] == 'Not': c = strip(c['arg']); neg = not neg
+                    if not (c['k'] == 'Call' and callee_name(c) == PF + 'var_is_free'):
+                        ok = False; break             # the free-variable test must decide alone (`closed || var_is_free(..)` lets other variables in)
                     branch = e['else'] if neg else e['then']
                     other = e['then'] if neg else e['else']
                     pushes = [x for x in walk(branch) if x['k'] == 'Call' and callee_name(x) == 'std::vec::Vec::push' and strip(x['args'][0]).get('field_name') == 'free_vars']
@@ -1604,6 +1724,189 @@ def rule_X7(F, R):
                 if not ok:
                     R.violation('rsbdd::parser_io::SymbolicParseTree / X7 / child list iteration', 'X7', 'a child list is walked through %s: every element must get its own edge and index (no skipping or de-duplicating adaptor)' % '.'.join(reversed(chain)), m.get('loc'))
 
+# ------------------------------------------------------------------------------------------------ XR named definitions
+def rule_references(F, R, which=('eval_recursive', 'replace_var', 'var_is_free')):
+    """A named definition `{name}` stands for its text: each syntax-directed function treats Reference(name) in an arm of its own that
+    looks the definition up and, for a Syntax definition, recurses into it with its other arguments unchanged (replace_var substitutes
+    inside the definition, var_is_free looks inside it, eval_recursive evaluates it).  Engine S leaves Reference out of its worlds."""
+    lib = F.lib()
+    PFm = 'rsbdd::parser::ParsedFormula::'
+    for short in which:
+        fn = PFm + short
+        t = lib.ithir.get(fn)
+        if t is None:
+            R.violation(fn + ' / XR / anchor', 'UNDECIDABLE', '%s not found' % short); continue
+        params = [unwrap_pat(p['pat']).get('var') if 'pat' in p else None for p in t['params']]
+        arm = None; merged = False
+        for m in walk(t['body']):
+            if m['k'] != 'Match': continue
+            for a in m['arms']:
+                vs = arm_variant_bindings(a)
+                if 'Reference' in vs:
+                    arm = (a, vs['Reference'].get(0)); merged = len(vs) > 1
+            if arm: break
+        ok = arm is not None and not merged and arm[1] is not None
+        why = 'no arm of its own for Reference(name)' if not ok else ''
+        if ok:
+            a, namevar = arm
+            bodies = [a['body']] + [lib.ithir[canon(x['def'])]['body'] for x in walk(a['body']) if x['k'] == 'Closure' and canon(x['def']) in lib.ithir]
+            look = [x for bd in bodies for x in walk(bd) if x['k'] == 'Call' and callee_name(x) == PFm + 'get_definition' and root_var(x['args'][1]) == namevar]
+            syn = set()
+            for bd in bodies:
+                for mm in walk(bd):
+                    if mm['k'] == 'Match':
+                        for aa in mm['arms']:
+                            q = unwrap_pat(aa['pat'])
+                            if q['k'] == 'Variant' and q.get('variant') == 'Syntax' and q['subs']:
+                                b_ = unwrap_pat(q['subs'][0]['pat'])
+                                if b_['k'] == 'Binding':
+                                    for x in walk(aa['body']):
+                                        if x['k'] == 'Call' and callee_name(x) == fn and root_var(x['args'][1]) == b_['var'] and \
+                                                all(root_var(x['args'][i]) == params[i] for i in range(2, len(params))) and root_var(x['args'][0]) == params[0]:
+                                            syn.add(b_['var'])
+            ok = len(look) == 1 and len(syn) == 1
+            why = 'the Reference arm must look the definition up once and recurse into a Syntax definition with the other arguments unchanged (look-ups: %d, recursions into the definition: %d)' % (len(look), len(syn))
+        if ok:
+            # the syntax-directed functions only read the definitions: no `define`, no mutable borrow of the table
+            bodies_all = [t['body']] + [ct_['body'] for nm_, ct_ in sorted(lib.ithir.items()) if nm_.startswith(fn + '::{closure')]
+            writes = [x for bd in bodies_all for x in walk(bd) if x['k'] == 'Call' and (callee_name(x) == PFm + 'define' or
+                      ((callee_name(x) or '') in ('std::cell::RefCell::borrow_mut', 'std::cell::RefCell::replace', 'std::cell::RefCell::take') and strip(x['args'][0]).get('field_name') == 'definitions'))]
+            if writes:
+                ok = False; why = 'it changes the definitions while walking the formula (a later evaluation, or another reference to the same name, sees a different definition)'
+        R.count('XR:reference-arms'); R.obligation(ok, 'XR ' + short)
+        if not ok: R.violation('%s / XR / named definitions' % fn, 'XR', '%s: %s' % (short, why), t['span']['loc'] if 'span' in t else None)
+
+# ------------------------------------------------------------------------------------------------ X10 node labels of the parse tree
+REF_NODE_LABELS = {'BinaryOp': '{0:?}', 'Quantifier': '{0:?} [{1}]', 'Not': 'Not', 'CountableConst': '{0:?} {2}', 'CountableVariable': '{0:?}',
+                   'FixedPoint': {True: 'GFP {0}', False: 'LFP {0}'}, 'Ite': 'Ite', 'False': 'False', 'True': 'True', 'Var': 'Var {0}', 'Subtree': 'BDD', 'Reference': 'Ref {0}'}
+
+def label_text(lib, e, env, fields):
+    """the text an expression renders to, holes named by the field of the syntax node they show (`{0}`, `{1:?}`); env: local name -> text
+    or ('bool', b) for the flag the label depends on.  Raises PredUndec for anything else."""
+    import engine_u
+    def rec(e, env):
+        while e['k'] in ('Use', 'Borrow', 'Deref', 'NeverToAny', 'PointerCoercion'): e = e.get('source') or e.get('arg')
+        k = e['k']
+        if k == 'Literal' and e.get('lit') == 'Str': return e['value']
+        if k in ('VarRef', 'UpvarRef'):
+            if e['var'] in env and isinstance(env[e['var']], str): return env[e['var']]
+            if e['var'] in fields: return '{%d}' % fields[e['var']]
+            raise PredUndec('label uses %s' % e['var'].split('#')[0])
+        if k == 'Adt' and canon(e['adt']).endswith('LabelText') and e['fields']: return rec(e['fields'][0]['expr'], env)
+        if k == 'Block':
+            env = dict(env)
+            for st in e['stmts']:
+                if st['k'] == 'Let' and st.get('init') is not None and st['init'].get('exp') is None:
+                    q = unwrap_pat(st['pat'])
+                    if q['k'] == 'Binding':
+                        try: env[q['var']] = rec(st['init'], env)
+                        except PredUndec: pass
+            if e.get('expr') is None: raise PredUndec('block without a value')
+            return rec(e['expr'], env)
+        if k == 'If' and e['cond']['k'] != 'Let' and e.get('else') is not None:
+            return rec(e['then'] if flag(e['cond'], env) else e['else'], env)
+        if k == 'Match' and e.get('source') in (None, 'Normal'):
+            b = flag(e['scrutinee'], env)
+            for a in e['arms']:
+                q = unwrap_pat(a['pat'])
+                if q['k'] == 'Wild' or (q['k'] == 'Binding' and not q.get('sub')): return rec(a['body'], env)
+                if q['k'] == 'Constant':
+                    cv = str(q.get('value'))
+                    if (('true' in cv or '0x01' in cv) and b) or (('false' in cv or '0x00' in cv) and not b): return rec(a['body'], env)
+            raise PredUndec('no arm for the flag')
+        if k == 'Index' or (k == 'Call' and (callee_decl(e) or '') == 'std::ops::Index::index'):
+            base, ix = (e['lhs'], e['index']) if k == 'Index' else (e['args'][0], e['args'][1])
+            while base['k'] in ('Use', 'Borrow', 'Deref', 'NeverToAny', 'PointerCoercion'): base = base.get('source') or base.get('arg')
+            if base['k'] != 'Array': raise PredUndec('label picked from something other than a spelt-out array')
+            ixs = strip(ix)
+            while ixs['k'] == 'Cast' or (ixs['k'] == 'Call' and (callee_decl(ixs) or '') in ('std::convert::From::from', 'std::convert::Into::into')): ixs = strip(ixs['source'] if ixs['k'] == 'Cast' else ixs['args'][0])
+            i = 1 if flag(ixs, env) else 0            # usize::from(bool) / `as usize`: false -> 0, true -> 1
+            if i >= len(base['fields']): raise PredUndec('index beyond the array')
+            return rec(base['fields'][i], env)
+        if k == 'Call':
+            cn = callee_name(e) or ''; dn = callee_decl(e) or ''
+            fa = [b for b in walk(e) if b['k'] == 'Block' and 'format_args' in str(b.get('exp')) and b['stmts']]
+            if (cn.endswith('fmt::format') or cn.endswith('::must_use')) and fa:
+                b = fa[0]
+                tup = None; wr = None
+                for st in b['stmts']:
+                    i0 = strip(st['init']) if st['k'] == 'Let' and st.get('init') is not None else None
+                    if i0 is not None and i0['k'] == 'Tuple' and tup is None: tup = i0['fields']
+                    elif i0 is not None and i0['k'] == 'Array' and wr is None: wr = i0['fields']
+                tm = [x for x in walk(b) if x['k'] == 'Literal' and x.get('lit') == 'ByteStr']
+                if not tm: raise PredUndec('format without a template')
+                text = engine_u.decode_template(tm[0]['value'])
+                parts = text.split('{}')
+                if len(parts) == 1: return text
+                if tup is None or wr is None or len(wr) != len(parts) - 1: raise PredUndec('format arguments')
+                out = parts[0]
+                for w, nxt in zip(wr, parts[1:]):
+                    w0 = strip(w)
+                    kind = (callee_name(w0) or '').split('::')[-1]
+                    fld = [x for x in walk(w0) if x['k'] == 'Field']
+                    if not fld or fld[0]['field'] >= len(tup): raise PredUndec('format argument')
+                    arg = tup[fld[0]['field']]
+                    try:
+                        r = rec(arg, env)
+                    except PredUndec:
+                        rv = root_var(arg)
+                        roots = [x['var'] for x in walk(arg) if x['k'] in ('VarRef', 'UpvarRef') and x['var'] in fields]
+                        if rv in fields: r = '{%d}' % fields[rv]
+                        elif len(set(roots)) == 1: r = '{%d}' % fields[roots[0]]          # an expression over one field (the joined names of a list)
+                        else: raise
+                    if kind == 'new_debug' and r.startswith('{') and r.endswith('}'): r = r[:-1] + ':?}'
+                    elif kind not in ('new_display', 'new_debug'): raise PredUndec('format directive %s' % kind)
+                    out += r + nxt
+                return out
+            if cn.endswith('LabelText::label') or cn.endswith('LabelText::LabelStr') or dn in ('std::string::ToString::to_string', 'std::convert::From::from', 'std::convert::Into::into', 'std::borrow::ToOwned::to_owned', 'std::clone::Clone::clone') \
+                    or cn in ('std::string::String::from', 'core::str::<impl str>::to_string', 'std::string::String::as_str'):
+                return rec(e['args'][0], env)
+        raise PredUndec('label construct %s: %s' % (k, pp(e)[:50]))
+    def flag(c, env):
+        c = strip(c)
+        neg = False
+        while c['k'] == 'Unary' and c['op'] == 'Not': c = strip(c['arg']); neg = not neg
+        if c['k'] in ('VarRef', 'UpvarRef') and isinstance(env.get(c['var']), tuple) and env[c['var']][0] == 'bool': return env[c['var']][1] != neg
+        if c['k'] == 'Literal' and isinstance(c.get('value'), bool): return c['value'] != neg
+        raise PredUndec('the label depends on %s' % pp(c)[:40])
+    return rec(e, env)
+
+def rule_X10(F, R):
+    """the label of each parse-tree node names the construct: the text per node kind equals the documented labelling (a GFP node is
+    labelled GFP, the counting operators and the quantifier show their kind, constants are True / False, ..)"""
+    lib = F.lib()
+    tl = [k for k in lib.ithir if k.endswith('Labeller>::node_label') and 'SymbolicParseTree' in k]
+    if not tl:
+        R.violation('rsbdd::parser_io / X10 / anchor', 'UNDECIDABLE', 'node_label of the parse-tree exporter not found'); return
+    t = lib.ithir[tl[0]]
+    seen = set()
+    for m in walk(t['body']):
+        if m['k'] != 'Match' or not any(arm_variant_bindings(a) for a in m['arms']): continue
+        for a in m['arms']:
+            for variant, binds in arm_variant_bindings(a).items():
+                want = REF_NODE_LABELS.get(variant)
+                fields = {v: i for i, v in binds.items()}
+                cases = [(None, want)] if not isinstance(want, dict) else [(b_, want[b_]) for b_ in (True, False)]
+                for b_, w in cases:
+                    env = {}
+                    if b_ is not None:
+                        flagvar = binds.get(1)
+                        if flagvar is None:
+                            R.violation('rsbdd::parser_io::SymbolicParseTree / X10 / %s' % variant, 'X10', 'the label of a fixed point does not look at its kind (least / greatest)', a['body'].get('loc')); continue
+                        env[flagvar] = ('bool', b_)
+                        fields = {v: i for v, i in fields.items() if v != flagvar}
+                    try:
+                        got = label_text(lib, a['body'], env, fields)
+                        ok = got == w; why = 'label %r, documented %r' % (got, w)
+                    except PredUndec as u:
+                        ok = False; why = 'cannot read the label: %s' % u
+                    R.count('X10:node-label-cases'); R.obligation(ok, 'X10 %s %s' % (variant, b_))
+                    if not ok: R.violation('rsbdd::parser_io::SymbolicParseTree / X10 / label of %s%s' % (variant, '' if b_ is None else (' (greatest)' if b_ else ' (least)')), 'X10' if 'cannot read' not in why else 'UNDECIDABLE', why, a['body'].get('loc'))
+                seen.add(variant)
+        break
+    missing = sorted(set(REF_NODE_LABELS) - seen)
+    if missing: R.violation('rsbdd::parser_io::SymbolicParseTree / X10 / VACUITY', 'VACUITY', 'no label arm found for %s' % missing)
+
 # ------------------------------------------------------------------------------------------------ X8 output files
 def rule_X8(F, R, crate_name, kind=None):
     """the emitted file is exactly the emitted text: every file a binary opens for writing is created truncating (File::create, or
@@ -1642,6 +1945,26 @@ def rule_X8(F, R, crate_name, kind=None):
                                 'a file opened for writing with %s keeps the tail of an existing longer file: the result is not the emitted text alone' % '.'.join(reversed(names)), e['loc'])
     if n == 0:
         R.violation('%s / X8 / VACUITY' % crate_name, 'VACUITY', 'no output file creation found in %s' % crate_name)
+
+def rule_X8_after_input(F, R, crate_name, producers):
+    """the output file is opened (and thereby emptied) only once everything that reads input or can refuse the request has run: a
+    conversion in place (`--convert g.csv -o g.csv`) reads the given list, and a refused request leaves an existing file alone"""
+    c = F.crate(crate_name)
+    t = c.ithir.get(crate_name + '::main') if c else None
+    if t is None:
+        R.violation('%s::main / X8 / anchor' % crate_name, 'UNDECIDABLE', 'main not found'); return
+    sts = stmts_in_order(t['body'])
+    def has(st, pred):
+        e = st.get('init') if st['k'] == 'Let' else st.get('expr')
+        return e is not None and any(x['k'] == 'Call' and pred(callee_name(x) or '') for x in walk(e))
+    opens = [i for i, st in enumerate(sts) if has(st, lambda cn: cn == 'std::fs::File::create' or cn.endswith('OpenOptions::open'))]
+    prod = [i for i, st in enumerate(sts) if has(st, lambda cn: cn == 'std::fs::File::open' or cn in producers)]
+    ok = bool(opens) and bool(prod) and min(opens) > max(prod)
+    R.count('X8:output-after-input'); R.obligation(ok, 'X8 order ' + crate_name)
+    if not ok:
+        R.violation('%s::main / X8 / output opened before the input is read' % crate_name, 'X8',
+                    'the output file must be created after the input graph has been read and the request accepted (statement %s creates it, statement %s still reads / generates / may refuse)' % (min(opens) if opens else None, max(prod) if prod else None),
+                    (sts[min(opens)].get('init') or sts[min(opens)].get('expr') or {}).get('loc') if opens else None)
 
 # ------------------------------------------------------------------------------------------------ X9 what goes to stdout
 def rule_X9(F, R):
